@@ -35,7 +35,7 @@ const (
 	nClients = 5
 	nKeySets = 2
 	nOrigins = 3
-	nBlinds  = 4
+	nBlinds  = 6
 )
 
 // Op is one honest request. Client and key set are constant along a history; they are
@@ -149,9 +149,15 @@ func indexKey(ks, o int) []byte {
 	return scLeadingZero("indexkey2", 2)
 }
 
-// blind: b1 = 1, b2 = N-1, b3 = leading zero byte, b4 = DRBG.
+// blind: b1 = 1, b2 = N-1, b3 = leading zero byte, b4 = DRBG, b5 = 2^384-1 (48 bytes, above the
+// group order), b6 = 64 bytes. The blind is a byte string that is hashed to the blinding factor
+// (as an integer, big-endian, unreduced): it need not be a scalar below N.
 func blind(b int) []byte {
 	switch b {
+	case 4:
+		return bytes.Repeat([]byte{0xff}, 48)
+	case 5:
+		return mc.Fill(seedBase, "blind-64-bytes", 64)
 	case 0:
 		return sc(big.NewInt(1))
 	case 1:
@@ -224,6 +230,7 @@ type kept struct {
 type State struct {
 	wd    *world
 	cache *px.MemCache
+	att   *type3.RateLimitedAttester // ONE attester object lives through a history
 	hist  string
 	depth int
 	seen  map[[2]int]bool
@@ -253,6 +260,7 @@ func cloneState(s *State) *State {
 		for k, v := range s.cache.M {
 			n.cache.M[k] = v.VerifClone()
 		}
+		n.att = type3.NewRateLimitedAttester(n.cache)
 	}
 	n.seen = map[[2]int]bool{}
 	for k, v := range s.seen {
@@ -283,6 +291,7 @@ func applyInner(s *State, op Op) (string, *mc.Viol) {
 			return "setup-fails", &mc.Viol{Sig: "issuer setup fails", What: err.Error()}
 		}
 		s.wd, s.cache, s.seen = wd, px.NewMemCache(), map[[2]int]bool{}
+		s.att = type3.NewRateLimitedAttester(s.cache)
 	}
 	wd := s.wd
 	if op.C != wd.c || op.KS != wd.ks {
@@ -298,7 +307,7 @@ func applyInner(s *State, op Op) (string, *mc.Viol) {
 	}
 	here := s.hist + op.label() + ";"
 	mc.Entropy("c08-" + here)
-	att := type3.NewRateLimitedAttester(s.cache)
+	att := s.att
 	cl := challengeLens[(s.depth+op.B)%len(challengeLens)]
 	a := px.T3Args{
 		Secret:     append([]byte{}, wd.secret...),
@@ -508,7 +517,7 @@ func newSeq(c, ks, depth int) *mc.Seq[*State, Op] {
 	for o := 0; o < nOrigins; o++ {
 		for b := 0; b < nBlinds; b++ {
 			menu = append(menu, Op{C: c, KS: ks, O: o, B: b})
-			if b%2 == 0 {
+			if b%2 == 0 && b < 4 {
 				menu = append(menu, Op{C: c, KS: ks, O: o, B: b, X: 1})
 			}
 		}
@@ -565,8 +574,8 @@ func main() {
 		r.DoReplay()
 	}
 
-	r.SetRule("for every client in {c1,c2,c3} and index-key set in {0,1}: every sequence of 1..depth honest requests over the menu origin{o1,o2,o3} x blind{b1..b4} (12 letters, no state merging) on one attester; each step runs create -> VerifyRequest -> Evaluate -> FinalizeIndex -> FinalizeToken; every history is a distinct case and non-trivial (an ID is derived at every step); plus all pairs of the 18 (client, index key) combinations for distinctness")
-	r.Assume("values come from fixed alphabets: client secrets {1, leading-zero-byte, DRBG}; index keys {1, N-1, leading-zero | 2, DRBG, two-leading-zeros}; blinds {1, N-1, leading-zero, DRBG}; all scalars in [1, N-1]",
+	r.SetRule("for every client in {c1,c2,c3} and index-key set in {0,1}: every sequence of 1..depth honest requests over the menu origin{o1,o2,o3} x blind{b1..b6} (18 letters, no state merging) on one attester; each step runs create -> VerifyRequest -> Evaluate -> FinalizeIndex -> FinalizeToken; every history is a distinct case and non-trivial (an ID is derived at every step); plus all pairs of the 18 (client, index key) combinations for distinctness")
+	r.Assume("values come from fixed alphabets: client secrets {1, leading-zero-byte, DRBG}; index keys {1, N-1, leading-zero | 2, DRBG, two-leading-zeros}; blinds {1, N-1, leading-zero, DRBG, 2^384-1, 64 bytes}; client secrets and index keys in [1, N-1]",
 		"the anonymous origin id argument is fixed per origin (honest attester input), so FinalizeIndex has no reason to reject",
 		"reference: own expand_message_xmd/hash_to_field (RFC 9380, SHA-384, DST 'ECDSA Key Blind', L=72) over minimal big-endian bytes(index key)||00||0003'IssuerBlind', crypto/elliptic point arithmetic, x/crypto/hkdf",
 		"nonce, challenge bytes, challenge length (32,0,65,1000 by position) and all entropy differ at every step; crypto/rand.Reader is a per-goroutine SHA-256 counter DRBG")
